@@ -1,6 +1,8 @@
 package rules
 
 import (
+	"go/token"
+	"go/types"
 	"strings"
 
 	"mcvet/engine"
@@ -133,4 +135,233 @@ func errorDiscipline(p *Program, f *ssa.Function, call ssa.CallInstruction, allo
 	}
 	// the allowed predicates must actually be applied to this error (not to another one)
 	return true, ""
+}
+
+// nilOnError: g has results (T, …, error) with T pointer-like, and on every
+// return that is an error return the first result is the nil constant.
+var nilOnErrCache = map[*ssa.Function]int{}
+
+func nilOnError(g *ssa.Function) bool {
+	if v, ok := nilOnErrCache[g]; ok {
+		return v == 1
+	}
+	nilOnErrCache[g] = 0
+	if g == nil || len(g.Blocks) == 0 || engine.ErrorResultIndex(g) < 1 {
+		return false
+	}
+	res := g.Signature.Results()
+	switch res.At(0).Type().Underlying().(type) {
+	case *types.Pointer, *types.Map, *types.Slice, *types.Interface:
+	default:
+		return false
+	}
+	n := 0
+	for _, b := range g.Blocks {
+		for _, in := range b.Instrs {
+			rt, ok := in.(*ssa.Return)
+			if !ok || !isErrReturn(rt) {
+				continue
+			}
+			n++
+			c, isC := engine.RetVal(rt, 0).(*ssa.Const)
+			if !isC || !c.IsNil() {
+				return false
+			}
+		}
+	}
+	if n == 0 {
+		return false
+	}
+	nilOnErrCache[g] = 1
+	return true
+}
+
+// failedResultNotUsed (C12 R12.8, C13): where a call failed (its error is non-nil)
+// the object result of a callee that returns nil on error is not dereferenced —
+// typically in the very message that reports the failure, after the result was
+// assigned over the variable that held the valid object.
+func failedResultNotUsed(r *Report, p *Program, rule string) {
+	r.Rule(rule, "on the error branch of v, err := f(…) where f returns nil on error, v is not dereferenced (method call, field access): the failure must be reported and retried, not turned into a panic")
+	n := 0
+	ord := map[string]int{}
+	for _, f := range p.Scanned {
+		for _, b := range f.Blocks {
+			for _, in := range b.Instrs {
+				call, isCall := in.(*ssa.Call)
+				if !isCall {
+					continue
+				}
+				// callee returns (object pointer, …, error): module functions proven nil-on-error, and —
+				// by Go convention, which client-go and this module follow — any function whose first
+				// result is a pointer to an object when the call's error is non-nil
+				g := engine.StaticFn(call.Common())
+				sig := call.Common().Signature()
+				if sig == nil || sig.Results().Len() < 2 || !isErrorT(sig.Results().At(sig.Results().Len()-1).Type()) {
+					continue
+				}
+				if _, isPtr := sig.Results().At(0).Type().Underlying().(*types.Pointer); !isPtr && !(g != nil && nilOnError(g)) {
+					continue
+				}
+				gname := engine.CallKey(call.Common())
+				ev := engine.ErrValue(call)
+				v := engine.ResultValue(call, 0)
+				if ev == nil || v == nil {
+					continue
+				}
+				var from []engine.Point
+				for _, bb := range f.Blocks {
+					for i := range bb.Succs {
+						if l, ok := engine.EdgeLit(bb, i); ok {
+							if x, isNil, isT := l.NilTest(); isT && !isNil && engine.SameValue(x, ev) {
+								from = append(from, engine.Point{B: bb.Succs[i]})
+							}
+						}
+					}
+				}
+				if len(from) == 0 {
+					continue
+				}
+				n++
+				k := Short(FK(f)) + "→" + Short(gname)
+				c := sf("%s#%d[failed-result-unused]", k, ord[k])
+				ord[k]++
+				w := engine.Query{Fn: f, From: from, CutInstr: func(x ssa.Instruction) bool {
+					if isCallTo(x, "os.Exit", "log.Fatal", "log.Fatalf", "klog.Fatal", "klog.Fatalf") {
+						return true // does not return
+					}
+					return x == ssa.Instruction(call) // executed again (next loop iteration): a new result
+				}, Target: func(x ssa.Instruction) bool {
+					switch y := x.(type) {
+					case ssa.CallInstruction:
+						cc := y.Common()
+						if cc.IsInvoke() && cc.Value == v {
+							return true
+						}
+						if !cc.IsInvoke() && len(cc.Args) > 0 && cc.Args[0] == v {
+							if h := engine.StaticFn(cc); h != nil && h.Signature.Recv() != nil {
+								return true
+							}
+						}
+					case *ssa.FieldAddr:
+						return y.X == v
+					case *ssa.UnOp:
+						return y.Op == token.MUL && y.X == v
+					}
+					return false
+				}}.Find()
+				r.Check(rule, c, p.InstrPos(call), w == nil, "the nil result of the failed call is not dereferenced on its error branch", "after "+Short(gname)+" failed, its (nil) result is dereferenced at "+func() string {
+					if w != nil {
+						return p.InstrPos(w.Instr)
+					}
+					return ""
+				}()+": the worker panics instead of reporting the error and requeueing")
+			}
+		}
+	}
+	r.Floor(rule, 10)
+	_ = n
+}
+
+func isErrorT(t types.Type) bool {
+	n, ok := t.(*types.Named)
+	return ok && n.Obj().Pkg() == nil && n.Obj().Name() == "error"
+}
+
+// toleranceScope (C12 R12.9): a benign-race predicate (apierrors.IsNotFound /
+// IsGone / IsConflict / IsAlreadyExists) applied to the error of a module call
+// only ever sees errors of the write it excuses. Traced backwards by identity
+// (direct returns, %w wraps, variables, fields, resolved function values), the
+// API errors that can reach the predicate must originate inside the
+// read-modify-write helpers (ResourceClient.Atomic*, UpdateWithRetries) or in the
+// function that applies the predicate. An error from elsewhere (the live re-read of
+// the PARENT before an adoption, a discovery lookup …) that newly travels by %w
+// into such a predicate is swallowed as if the child were gone.
+func toleranceScope(r *Report, p *Program, rule string) {
+	r.Rule(rule, "errors excused by IsNotFound/IsGone/IsConflict/IsAlreadyExists at a call of a module function originate (by identity) only in the read-modify-write helpers or in the excusing function itself")
+	inHelper := func(f *ssa.Function) bool {
+		for g := f; g != nil; g = g.Parent() {
+			k := FK(g)
+			if strings.Contains(k, "/pkg/dynamic/clientset.ResourceClient.") || strings.HasSuffix(k, "controllerRevisions.UpdateWithRetries") {
+				return true
+			}
+		}
+		return false
+	}
+	ord := map[string]int{}
+	n := 0
+	for _, f := range p.Scanned {
+		for _, b := range f.Blocks {
+			for _, in := range b.Instrs {
+				pc, isCall := in.(*ssa.Call)
+				if !isCall {
+					continue
+				}
+				k := engine.CallKey(pc.Common())
+				if !strings.HasPrefix(k, engine.KAPIErr+"Is") || len(pc.Common().Args) != 1 {
+					continue
+				}
+				ev := pc.Common().Args[0]
+				// only errors that come out of a module call (directly API-call errors are excused at their own site)
+				src := engine.ResolveLocal(ev)
+				var origin ssa.CallInstruction
+				switch x := src.(type) {
+				case *ssa.Extract:
+					origin, _ = x.Tuple.(ssa.CallInstruction)
+				case *ssa.Call:
+					origin = x
+				}
+				if origin == nil {
+					continue
+				}
+				if _, _, isSink := engine.ClassifySink(engine.CallKey(origin.Common())); isSink {
+					if g := engine.StaticFn(origin.Common()); g == nil || !strings.HasPrefix(FK(g), engine.ModPrefix) {
+						continue // direct API call
+					}
+				}
+				modCallee := false
+				for _, g := range p.CalleesOf(origin) {
+					if strings.HasPrefix(FK(g), engine.ModPrefix) {
+						modCallee = true
+					}
+				}
+				if !modCallee {
+					continue
+				}
+				n++
+				key := Short(FK(f)) + "→" + strings.TrimPrefix(k, engine.KAPIErr) + "(" + Short(engine.CallKey(origin.Common())) + ")"
+				if engine.CallKey(origin.Common()) == "" {
+					key = Short(FK(f)) + "→" + strings.TrimPrefix(k, engine.KAPIErr) + "(" + E(origin.Common().Value) + ")"
+				}
+				c := sf("%s#%d", key, ord[key])
+				ord[key]++
+				bad := ""
+				nsrc := 0
+				for _, s := range p.ErrSourcesOf(f, ev) {
+					if !strings.HasPrefix(s.Kind, "ext:") {
+						continue // fresh / unknown errors are not API status errors of another object
+					}
+					nsrc++
+					if s.Fn == f || inHelper(s.Fn) {
+						continue
+					}
+					direct := false
+					for _, g := range p.CalleesOf(origin) {
+						direct = direct || g == s.Fn
+					}
+					if direct {
+						continue // the excused call's own request (a lookup/write wrapper one call away)
+					}
+					// a thin wrapper around the write
+					if ws := thinWrapperSink(p, s.Fn); ws != nil && ws.Instr == s.Call {
+						continue
+					}
+					bad = sf("%s in %s (%s)", strings.TrimPrefix(s.Kind, "ext:"), Short(FK(s.Fn)), p.InstrPos(s.Call))
+				}
+				r.Check(rule, c, p.InstrPos(pc), bad == "", sf("%d API error source(s), all inside the write helpers / the excusing function", nsrc),
+					"the predicate can also see the error of "+bad+", which reaches it with its identity intact (returned directly or wrapped with %w): a failure of THAT request is excused as if the object being written were gone/conflicting, the sync reports success and nothing is retried")
+			}
+		}
+	}
+	r.Floor(rule, 4)
+	_ = n
 }
